@@ -4,6 +4,8 @@ import (
 	"encoding/json"
 	"fmt"
 	"math/rand"
+	"os"
+	"runtime/debug"
 	"strings"
 
 	"github.com/yorkie-team/yorkie/pkg/document"
@@ -252,6 +254,9 @@ func (r *c14Run) do(st c14Step) bool {
 			defer func() {
 				if x := recover(); x != nil {
 					err = fmt.Errorf("PANIC: %v", x)
+					if os.Getenv("VERIF_STACK") != "" {
+						err = fmt.Errorf("PANIC: %v\n%s", x, debug.Stack())
+					}
 				}
 			}()
 			n = r.doc.GarbageCollect(r.doc.VersionVector().DeepCopy())
@@ -271,7 +276,7 @@ func (r *c14Run) do(st c14Step) bool {
 			return false
 		}
 		if p := textIndexProblem(r.doc); p != "" {
-			r.viol("text-index-corrupt", "after collect: "+p)
+			r.viol("structure-corrupt", "after collect: "+p)
 			return false
 		}
 	case "clear":
@@ -319,7 +324,7 @@ func (r *c14Run) do(st c14Step) bool {
 			return false
 		}
 		if p := textIndexProblem(r.doc); p != "" {
-			r.viol("text-index-corrupt", "after "+st.T+": "+p)
+			r.viol("structure-corrupt", "after "+st.T+": "+p)
 			return false
 		}
 		if r.exact {
@@ -389,14 +394,21 @@ func c14ContentProfile(rng *rand.Rand) gen.Profile {
 	return p
 }
 
-func (w *c14Worker) runRandom(res *runner.CaseResult, idx int, exact bool) {
+func (w *c14Worker) runRandom(res *runner.CaseResult, idx int, exact bool, arrays bool) {
 	rng := caseRng(w.seed^0xc14, idx)
 	fam := "approximate"
 	var prof gen.Profile
-	if exact {
+	switch {
+	case arrays:
+		// arrays only, with set-by-index and moves, under collection: undo stacks that
+		// refer to purged elements, positions and re-issued tickets
+		fam = "approximate-array"
+		exact = false
+		prof = gen.Profile{Arr: 1, DeleteBias: 35 + rng.Intn(30), MaxDepth: 2, NewContainers: rng.Intn(2) * 10}
+	case exact:
 		fam = "content"
 		prof = c14ContentProfile(rng)
-	} else {
+	default:
 		prof = c07Profile(rng)
 		prof.NoDedup = true
 	}
@@ -474,7 +486,7 @@ func (w *c14Worker) runRandom(res *runner.CaseResult, idx int, exact bool) {
 			}
 		}
 	}
-	collects := idx%2 == 1
+	collects := idx%2 == 1 || arrays
 	if collects {
 		r.do(c14Step{T: "collect"})
 	}
@@ -761,7 +773,11 @@ func (w *c14Worker) Run(idx int) runner.CaseResult {
 		w.runTreeMerge(&res, idx)
 		return res
 	}
-	w.runRandom(&res, idx, idx%3 != 0)
+	if idx%10 == 9 {
+		w.runRandom(&res, idx, false, true)
+		return res
+	}
+	w.runRandom(&res, idx, idx%3 != 0, false)
 	return res
 }
 
